@@ -14,4 +14,5 @@ Extraction "model.ml" pstep sstep wf_from outstanding
   mstart mcmd mconnect mpoll mflush mshutdown mcrash decode_rec keymap_bytes mtake_before is_msc mf_empty apply_mops dedup_snap drop_link resync
   s3_flush s3_restart stub0
   ecmd edeliver ereply esettle tick_frames is_nosender
-  ksettle kkill kpoll_sup kpoll_repl.
+  ksettle kkill kpoll_sup kpoll_repl
+  tcp_line ws_frame conn_closed utf8_valid ws_terminators.
